@@ -1,8 +1,9 @@
-(* Generic protobuf wire model (layer B of C20), mirroring prost 0.13 `encoding.rs`:
-   varint, key = field << 3 | wire type, length-delimited values, groups (only ever skipped),
-   the recursion limit of `DecodeContext`, proto3 default omission, repeated fields, and the
-   codec of "string tuple" messages (messages all of whose fields are singular strings; a
-   map<string,string> entry is one of them).
+(* Generic protobuf wire model (layer B of C20), mirroring prost 0.13 `encoding.rs` and the
+   `Message` impl that prost-derive generates: varint, key = field << 3 | wire type,
+   length-delimited values, groups (only ever skipped), the recursion limit of `DecodeContext`,
+   proto3 default omission, and - second half of the file - the codec of a message type as a
+   function of its table of (field name, tag, kind): fields encoded in tag order, the merge of
+   singular / repeated / optional-message / repeated-message / map fields, defaults.
 
    The implementation decodes in one streaming pass; the model first cuts a buffer into
    (field number, wire value) tokens ([parse], which is prost's `decode_key` + `skip_field` /
@@ -239,40 +240,180 @@ Definition enc_int (tag : N) (z : Z) : list field :=
 Definition enc_rep_str (tag : N) (l : list (list N)) : list field := map (fun s => (tag, WLen s)) l.
 Definition enc_msg (tag : N) (fs : list field) : field := (tag, WLen (ser fs)).
 
-(* ---- messages made of singular strings ----------------------------------------------------- *)
-(* value = one string per tag of [tags], in order *)
-Fixpoint enc_strs (tags : list N) (vals : list (list N)) : list field :=
-  match tags, vals with
-  | t :: ts, v :: vs => enc_str t v ++ enc_strs ts vs
+(* ---- schema-driven codec (prost-derive `Message`) ------------------------------------------- *)
+(* A message type is the table of its `#[prost(..)]` fields: (field name, tag, kind).  prost-derive
+   sorts the fields by tag and generates, from the table alone,
+     encode_raw   : the fields in tag order, each by the encoder of its kind
+     merge_field  : `match tag { t_i => <merge of kind i>(wire_type, &mut self.f_i, buf, ctx), _ => skip_field(..) }`
+     Default      : the default of every kind.
+   [enc_fields] / [merge_f] / [dflt_f] below are these three, as functions of the table; the tables
+   themselves are regenerated from the source (Gen/RichErrorTables.v) and put in tag order by
+   [sort_by_tag].  A value of a message is the list of its field values in the order of the table.
+
+   Two levels are enough for the google.rpc error model: a "flat" message has singular scalar
+   fields only (Duration, Any, the Violation / Link messages, a map entry); a top-level message may
+   in addition have a repeated string, an optional flat message, a repeated flat message and a
+   map<string,string>. *)
+From Coq Require Import String.
+
+Inductive skind : Type := SInt32 | SInt64 | SString | SBytes.
+(* the value of a scalar field: an integer (i32 / i64) or bytes (String / Vec<u8>) *)
+Inductive sval : Type := VInt (z : Z) | VBs (b : list N).
+Definition flat : Type := list (string * N * skind).
+
+Inductive fkind : Type :=
+| FScalar (k : skind)
+| FStringRep                 (* repeated string *)
+| FMsgOpt (s : flat)         (* optional message *)
+| FMsgRep (s : flat)         (* repeated message *)
+| FMapSS.                    (* map<string, string> *)
+Definition schema : Type := list (string * N * fkind).
+
+Inductive val : Type :=
+| VS (v : sval)
+| VStrs (l : list (list N))
+| VOpt (o : option (list sval))
+| VRep (l : list (list sval))
+| VMap (m : list (list N * list N)).   (* HashMap: distinct keys, in iteration order *)
+
+Definition fname {K} (e : string * N * K) : string := fst (fst e).
+Definition ftag {K} (e : string * N * K) : N := snd (fst e).
+Definition fknd {K} (e : string * N * K) : K := snd e.
+
+(* `fields.sort_by_key(tag)`: stable insertion sort *)
+Fixpoint insert_by_tag {K} (e : string * N * K) (l : list (string * N * K)) : list (string * N * K) :=
+  match l with
+  | [] => [e]
+  | x :: r => if ftag x <=? ftag e then x :: insert_by_tag e r else e :: l
+  end.
+Definition sort_by_tag {K} (l : list (string * N * K)) : list (string * N * K) :=
+  fold_left (fun acc e => insert_by_tag e acc) l [].
+
+(* the arm of `match tag` that is taken: position in the table and kind *)
+Fixpoint find_field {K} (t : N) (s : list (string * N * K)) : option (nat * K) :=
+  match s with
+  | [] => None
+  | e :: r => if t =? ftag e then Some (O, fknd e)
+              else match find_field t r with Some (i, k) => Some (S i, k) | None => None end
+  end.
+Fixpoint upd {A} (i : nat) (x : A) (l : list A) : list A :=
+  match l with
+  | [] => []
+  | y :: r => match i with O => x :: r | S j => y :: upd j x r end
+  end.
+
+(* -- scalars -- *)
+Definition dflt_s (k : skind) : sval := match k with SInt32 | SInt64 => VInt 0 | SString | SBytes => VBs [] end.
+(* int32::encode / int64::encode write `value as u64`; string::encode / bytes::encode *)
+Definition enc_s (tag : N) (k : skind) (v : sval) : list field :=
+  match k, v with
+  | SInt32, VInt z | SInt64, VInt z => enc_int tag z
+  | SString, VBs b | SBytes, VBs b => enc_str tag b
+  | _, _ => []
+  end.
+Definition merge_s (k : skind) (w : wval) : res sval :=
+  match k with
+  | SInt32 => bind (as_varint w) (fun n => Ok (VInt (to_i32 n)))
+  | SInt64 => bind (as_varint w) (fun n => Ok (VInt (to_i64 n)))
+  | SString => bind (as_string w) (fun b => Ok (VBs b))
+  | SBytes => bind (as_bytes w) (fun b => Ok (VBs b))
+  end.
+
+(* -- flat messages -- *)
+Definition dflt_flat (s : flat) : list sval := map (fun e => dflt_s (fknd e)) s.
+Fixpoint enc_flat (s : flat) (vs : list sval) : list field :=
+  match s, vs with
+  | e :: s', v :: vs' => enc_s (ftag e) (fknd e) v ++ enc_flat s' vs'
+  | _, _ => []
+  end.
+Definition merge_flat (s : flat) (st : list sval) (f : field) : res (list sval) :=
+  let (t, w) := f in
+  match find_field t s with
+  | Some (i, k) => bind (merge_s k w) (fun v => Ok (upd i v st))
+  | None => Ok st                                   (* skip_field: the token was cut by [parse] *)
+  end.
+Definition dec_flat (s : flat) (fs : list field) : res (list sval) := fold_res (merge_flat s) fs (dflt_flat s).
+
+(* -- top-level messages -- *)
+Definition dflt_f (k : fkind) : val :=
+  match k with
+  | FScalar k => VS (dflt_s k) | FStringRep => VStrs [] | FMsgOpt _ => VOpt None | FMsgRep _ => VRep []
+  | FMapSS => VMap []
+  end.
+Definition dflt_fields (s : schema) : list val := map (fun e => dflt_f (fknd e)) s.
+
+(* a map entry is the message { key = 1; value = 2 } (prost encoding.rs, `map!`) *)
+Definition ENTRY : flat := [("key"%string, 1, SString); ("value"%string, 2, SString)].
+Definition bs_of (v : sval) : list N := match v with VBs b => b | VInt _ => [] end.
+Definition int_of (v : sval) : Z := match v with VInt z => z | VBs _ => 0%Z end.
+(* HashMap::insert *)
+Fixpoint map_insert (m : list (list N * list N)) (k v : list N) : list (list N * list N) :=
+  match m with
+  | [] => [(k, v)]
+  | (k', v') :: r => if bytes_eqb k' k then (k, v) :: r else (k', v') :: map_insert r k v
+  end.
+
+Definition enc_f (tag : N) (k : fkind) (v : val) : list field :=
+  match k, v with
+  | FScalar sk, VS x => enc_s tag sk x
+  | FStringRep, VStrs l => enc_rep_str tag l
+  | FMsgOpt s, VOpt (Some x) => [enc_msg tag (enc_flat s x)]
+  | FMsgRep s, VRep l => map (fun x => enc_msg tag (enc_flat s x)) l
+  | FMapSS, VMap m => map (fun kv => enc_msg tag (enc_flat ENTRY [VBs (fst kv); VBs (snd kv)])) m
+  | _, _ => []
+  end.
+Fixpoint enc_fields (s : schema) (vs : list val) : list field :=
+  match s, vs with
+  | e :: s', v :: vs' => enc_f (ftag e) (fknd e) v ++ enc_fields s' vs'
   | _, _ => []
   end.
 
-Fixpoint set_str (tags : list N) (st : list (list N)) (tag : N) (b : list N) : list (list N) :=
-  match tags, st with
-  | t :: ts, s :: ss => if tag =? t then b :: ss else s :: set_str ts ss tag b
-  | _, _ => st
+(* merge_field.  string::merge_repeated and message::merge_repeated decode one element with a fresh
+   default and push it; an optional message field is `get_or_insert_with(Default::default)` and
+   then merged into; hash_map::merge decodes an entry with fresh defaults and inserts it.  The
+   last arm is taken when the state does not have the shape of the table - never, starting from
+   [dflt_fields]. *)
+Definition merge_f (s : schema) (st : list val) (f : field) : res (list val) :=
+  let (t, w) := f in
+  match find_field t s with
+  | None => Ok st
+  | Some (i, k) =>
+      match k, nth i st (dflt_f k) with
+      | FScalar sk, _ => bind (merge_s sk w) (fun v => Ok (upd i (VS v) st))
+      | FStringRep, VStrs l => bind (as_string w) (fun b => Ok (upd i (VStrs (l ++ [b])) st))
+      | FMsgOpt fs, VOpt o =>
+          bind (as_message RECURSION_LIMIT w) (fun toks =>
+          bind (fold_res (merge_flat fs) toks (match o with Some x => x | None => dflt_flat fs end)) (fun x =>
+          Ok (upd i (VOpt (Some x)) st)))
+      | FMsgRep fs, VRep l =>
+          bind (as_message RECURSION_LIMIT w) (fun toks =>
+          bind (dec_flat fs toks) (fun x => Ok (upd i (VRep (l ++ [x])) st)))
+      | FMapSS, VMap m =>
+          bind (as_message RECURSION_LIMIT w) (fun toks =>
+          bind (dec_flat ENTRY toks) (fun kv =>
+          Ok (upd i (VMap (map_insert m (bs_of (nth 0 kv (VBs []))) (bs_of (nth 1 kv (VBs []))))) st)))
+      | _, _ => Ok st
+      end
   end.
 
-(* merge_field of such a message: `match tag { t_i => string::merge(..), _ => skip_field(..) }` *)
-Definition merge_strs (tags : list N) (st : list (list N)) (f : field) : res (list (list N)) :=
-  let (tag, v) := f in
-  if existsb (N.eqb tag) tags then
-    match as_string v with Ok b => Ok (set_str tags st tag b) | Err => Err | Panic => Panic | Fuel => Fuel end
-  else Ok st.
+(* the tags whose merge never looks at the wire type: the map fields *)
+Definition lenient_of (s : schema) : list N :=
+  map ftag (filter (fun e => match fknd e with FMapSS => true | _ => false end) s).
 
-Definition dec_strs (tags : list N) (fs : list field) : res (list (list N)) :=
-  fold_res (merge_strs tags) fs (map (fun _ => []) tags).
+(* Message::encode_to_vec and Message::decode of the message type with table [s] *)
+Definition enc_g (s : schema) (vs : list val) : list N := ser (enc_fields s vs).
+Definition dec_g (s : schema) (b : list N) : res (list val) :=
+  bind (parse RECURSION_LIMIT (lenient_of s) b) (fun fs => fold_res (merge_f s) fs (dflt_fields s)).
 
-(* ---- a repeated field whose elements are such messages -------------------------------------- *)
-Definition enc_rep_strs (tag : N) (inner : list N) (items : list (list (list N))) : list field :=
-  map (fun it => enc_msg tag (enc_strs inner it)) items.
-
-(* message::merge_repeated: decode one element with a fresh default, push it *)
-Definition merge_rep_strs (tag : N) (inner : list N) (acc : list (list (list N))) (f : field)
-  : res (list (list (list N))) :=
-  let (t, v) := f in
-  if t =? tag then
-    bind (as_message RECURSION_LIMIT v) (fun fs => bind (dec_strs inner fs) (fun it => Ok (acc ++ [it])))
-  else Ok acc.
-Definition dec_rep_strs (tag : N) (inner : list N) (fs : list field) : res (list (list (list N))) :=
-  fold_res (merge_rep_strs tag inner) fs [].
+(* -- access by field name (the `From` conversions of tonic-types name the fields) -- *)
+Fixpoint lookup {A} (n : string) (l : list (string * A)) (d : A) : A :=
+  match l with
+  | [] => d
+  | (n', x) :: r => if String.eqb n' n then x else lookup n r d
+  end.
+(* the value of a message given field by field, put in the order of the table *)
+Definition arrange {K A} (s : list (string * N * K)) (dflt : K -> A) (named : list (string * A)) : list A :=
+  map (fun e => lookup (fname e) named (dflt (fknd e))) s.
+(* the field called [n] of a value *)
+Definition by_name {K A} (s : list (string * N * K)) (vs : list A) (n : string) (d : A) : A :=
+  lookup n (combine (map fname s) vs) d.
